@@ -223,7 +223,22 @@ pub fn decode(data: &[u8]) -> Result<(Decoded, Header), String> {
 	let root = util::decompress(slice(data, h.root.0, h.root.1, "root directory")?, internal).map_err(|e| format!("root: {e}"))?;
 	let mut addressed = 0u64;
 	let mut tile_entries = 0u64;
+	CLUSTER.with(|c| c.borrow_mut().clear());
 	walk(data, &h, internal, &root, 0, &mut out, &mut addressed, &mut tile_entries)?;
+	let mut by_id: Vec<(u64, u64, u64)> = CLUSTER.with(|c| c.borrow_mut().drain(..).collect());
+	if h.clustered {
+		// "clustered": in tile-id order every entry's data starts where the data written so far
+		// ends, or refers back to data already written (de-duplication) - never further ahead
+		by_id.sort();
+		let mut end = 0u64;
+		for (id, off, len) in &by_id {
+			if *off > end {
+				out.notes.push(format!("header says clustered, but the tile data is not ordered by tile id (tile id {id} at offset {off}, data so far ends at {end})"));
+				break;
+			}
+			end = end.max(off + len);
+		}
+	}
 	if h.addressed != 0 && h.addressed != addressed {
 		out.notes.push(format!("header says {} addressed tiles, directories address {}", h.addressed, addressed));
 	}
@@ -231,6 +246,11 @@ pub fn decode(data: &[u8]) -> Result<(Decoded, Header), String> {
 		out.notes.push(format!("header says {} tile entries, directories hold {}", h.entries, tile_entries));
 	}
 	Ok((out, h))
+}
+
+thread_local! {
+	/// (tile id, offset) of every tile entry met while walking the directories of one file
+	static CLUSTER: std::cell::RefCell<Vec<(u64, u64, u64)>> = const { std::cell::RefCell::new(Vec::new()) };
 }
 
 #[allow(clippy::too_many_arguments)]
@@ -254,6 +274,7 @@ fn walk(data: &[u8], h: &Header, internal: Comp, dir: &[u8], depth: u8, out: &mu
 			walk(data, h, internal, &leaf, depth + 1, out, addressed, tile_entries)?;
 		} else {
 			*tile_entries += 1;
+			CLUSTER.with(|c| c.borrow_mut().push((e.id, e.off, e.len)));
 			if e.off + e.len > h.data.1 {
 				return Err(format!("tile {} outside the tile-data section", e.id));
 			}
